@@ -202,6 +202,9 @@ COMMON_ASSUMPTIONS = [
 DEF = {"cfg": {"min": 200000, "max": 600000, "life": 1800}}
 FAST = {"cfg": {"min": 3000, "max": 4000, "life": 1800}}
 UNI = {"cfg": {"min": 200000, "max": 600000, "life": 1800, "unicast": True}}
+# the interface task runs under the real Server.Serve (real signal task and terminator); a stop is a signal
+SRV = {"cfg": {"min": 200000, "max": 600000, "life": 1800, "serve": True}}
+SRV2 = {"cfg": {"min": 200000, "max": 600000, "life": 1800, "serve": True, "ifaces": 2}}
 JIT = {"cfg": {"min": 200000, "max": 600000, "life": 1800}, "jitter": [0, 1, -1, 0, 2]}
 
 PLANS = {}
@@ -248,9 +251,10 @@ PLANS["C08"] = dict(
     mc=[("c08", dict(Hosts='{"h1"}', MaxIn=2, MaxT=8, MaxHolds=2, MaxRADelay=2), dict(MaxIn=3, MaxT=9)),
         ("c08uni", dict(Hosts='{"h1"}', UnicastOnly="TRUE", MaxIn=2, MaxT=7, MaxHolds=1), dict(MaxIn=3))],
     env=[("a", dict(Srcs='{"unspec", "h1"}', HoldDsts='{"h1", "allnodes"}', Terms="{TRUE, FALSE}", MaxEv=4, MaxT=7),
-          dict(MaxEv=5, MaxT=8), [DEF, FAST, UNI])],
+          dict(MaxEv=5, MaxT=8), [DEF, FAST, UNI, SRV])],
     cap_quick=1500, cap_thorough=12000,
-    nrand=30, nrand_thorough=800, rand_variants=[DEF, FAST],
+    nrand=30, nrand_thorough=800, rand_variants=[DEF, FAST, SRV, SRV2],
+    ifis=("vf0", "vf1"),
     rand=lambda rng: rand_bursts(rng, rng.randrange(5, 40), ["rs"], cancel=True),
     nontrivial=lambda s: any(x["op"] == "cancel" for x in s["steps"]) and any(x["op"] in ("hold", "rs") for x in s["steps"]),
     rule="scenarios = TLC-enumerated histories over {RS, hold/release of a transmit, stop(term|reload)} replayed as forced "
@@ -379,10 +383,24 @@ def _c10_fixed():
             steps = [{"op": "adv", "to": 5000}] + [{"op": "timeout"} for _ in range(4)] + [{"op": "adv", "to": 5400}, {"op": "rs", "src": "fe80::a1"}] + \
                     [{"op": "timeout"} for _ in range(min(k, 4))] + [{"op": "adv", "to": 9000}]
             out.append({"cfg": dict(DEF["cfg"], mode=mode), "steps": steps, "src": "timeouts-reset-%d" % k})
+    # two interface tasks under the real Server.Serve: a fatal failure of one ends both (and Serve), a recoverable one is
+    # local to its interface; the other interface keeps serving meanwhile
+    for mode in ("adv", "mon"):
+        for fault in ([{"op": "readerr", "class": "other"}], [{"op": "readerr", "class": "perm"}], [{"op": "timeout"}] * 5,
+                      [{"op": "readerr", "class": "sys"}], [{"op": "link"}],
+                      [{"op": "failw", "dst": "fe80::a1", "class": "other"}, {"op": "rs", "src": "fe80::a1"}]):
+            for who in ("vf0", "vf1"):
+                other = "vf1" if who == "vf0" else "vf0"
+                steps = [{"op": "adv", "to": 5000}, {"op": "rs", "src": "fe80::a1", "ifi": other}] + \
+                        [dict(f, ifi=who) for f in fault] + \
+                        [{"op": "adv", "to": 5400}, {"op": "rs", "src": "2001:db8::a2", "ifi": other}, {"op": "adv", "to": 9000},
+                         {"op": "rs", "src": "fe80::a1", "ifi": who}, {"op": "adv", "to": 12000}, {"op": "cancel", "term": True}]
+                out.append({"cfg": dict(DEF["cfg"], mode=mode, serve=True, ifaces=2), "steps": steps, "src": "serve-two-interfaces"})
     return out
 
 
 PLANS["C10"]["fixed"] = _c10_fixed()
+PLANS["C10"]["ifis"] = ("vf0", "vf1")
 PLANS["C07"]["fixed"] = concurrent_write_failures()
 
 
